@@ -231,6 +231,21 @@ func init() {
 	reg(vp+"SpyArgBool", func(e *Exec, s *State, f *Frame, x *ssa.Call, a []Val) ([]*State, bool) {
 		return ret(f, x, spyArg(s, a).(Sym))
 	})
+	reg(vp+"SpyResZ", func(e *Exec, s *State, f *Frame, x *ssa.Call, a []Val) ([]*State, bool) {
+		calls := spyCalls(s, a[0].(StrV).S)
+		ci, _ := asConst(a[1].(Sym).S)
+		ri, _ := asConst(a[2].(Sym).S)
+		switch v := calls[ci.Int64()].Res[ri.Int64()].(type) {
+		case BigV:
+			if v.Nil {
+				return ret(f, x, BigV{T: "0"})
+			}
+			return ret(f, x, BigV{T: v.T})
+		case Sym:
+			return ret(f, x, BigV{T: v.S})
+		}
+		panic("SpyResZ: result is not numeric")
+	})
 	reg(vp+"SpyErrNil", func(e *Exec, s *State, f *Frame, x *ssa.Call, a []Val) ([]*State, bool) {
 		calls := spyCalls(s, a[0].(StrV).S)
 		ci, _ := asConst(a[1].(Sym).S)
